@@ -1,4 +1,4 @@
-CONSTANTS Cap = 2  NCap = 2  MaxSends = 3  Lens = {16, 33}  MaxMsgMC = 32
+CONSTANTS Cap = 3  NCap = 2  MaxSends = 3  Lens = {16, 33}  MaxMsgMC = 32
 SPECIFICATION Spec
 INVARIANT TypeOK
 INVARIANT ReqFifo
